@@ -29,6 +29,22 @@ TIMEOUT_S = {"quick": 600, "thorough": 3000}
 
 
 # ------------------------------------------------------------------------------------------------- relabelling after pickle
+def storage_index():
+    """content (raw bytes) of every shadowed storage -> its shadow array: pickle serialises whole storages, so a restored
+    tensor's storage is byte-identical to exactly one original storage"""
+    out = {}
+    for ptr, (stg, arr, es) in SH.st.items():
+        out[(_raw(stg), es)] = arr
+    return out
+
+
+def _raw(stg):
+    """raw bytes of an untyped storage, read below the dispatcher"""
+    from torch.utils._python_dispatch import _disable_current_modes
+    with _disable_current_modes():
+        return torch.empty(0, dtype=torch.uint8).set_(stg).numpy().tobytes()
+
+
 def value_index():
     idx, bad = {}, set()
     for ptr, (stg, arr, es) in SH.st.items():
@@ -44,6 +60,9 @@ def value_index():
     return idx
 
 
+STORAGES = None
+
+
 def relabel(obj, index, seen=None, depth=0):
     """walk an unpickled object graph; give every float tensor element whose value is a known witness its symbolic term"""
     seen = seen if seen is not None else set()
@@ -52,6 +71,11 @@ def relabel(obj, index, seen=None, depth=0):
     seen.add(id(obj))
     if isinstance(obj, torch.Tensor):
         t = obj.data if isinstance(obj, torch.nn.Parameter) else obj
+        if t.is_floating_point() and t.numel() and t.layout == torch.strided and not SH.has(t) and STORAGES is not None:
+            ent = STORAGES.get((_raw(t.untyped_storage()), t.element_size()))
+            if ent is not None:
+                SH.st[t.untyped_storage().data_ptr()] = (t.untyped_storage(), ent.copy(), t.element_size())
+                return
         if t.is_floating_point() and t.numel() and t.layout == torch.strided and not SH.has(t):
             a = t.detach().numpy()
             vals = np.empty(a.shape, dtype=object)
@@ -234,7 +258,9 @@ def roundtrip(S, kind, mechanism, savepoint):
                 flik.load_state_dict(sdl)
             rest, rlik = fresh, flik
         elif mechanism == "pickle":
+            global STORAGES
             index = value_index()
+            STORAGES = storage_index()
             blob = pickle.dumps((orig, lik))
             rest, rlik = pickle.loads(blob)
             relabel((rest, rlik), index)
@@ -276,7 +302,9 @@ def model_list(S, mechanism):
         ml = gpytorch.models.IndependentModelList(*members)
         ml.eval()
         if mechanism == "pickle":
+            global STORAGES
             index = value_index()
+            STORAGES = storage_index()
             rest = pickle.loads(pickle.dumps(ml))
             relabel(rest, index)
         elif mechanism == "deepcopy":
